@@ -16,7 +16,7 @@ import sys
 import numpy as np
 from scipy.spatial.transform import Rotation as R
 
-from harness.common import run_guarded, REPO
+from harness.common import run_guarded, REPO, COQ, Lock, sh
 from harness import octa
 from harness.shrink import shrink_list
 
@@ -1059,17 +1059,23 @@ def run(ctx):
         flow = gen_l2flow.flow(REPO)
     except Exception:  # pylint: disable=broad-except
         flow = None            # already reported by regen
+    can_model = built
+    if not built and flow is not None:
+        # the proof broke but the translated program may still run: keep comparing the model with the code
+        with Lock():
+            rc, _ = sh("make -j4 Gen/GenL2Flow.vo Model/Level2StateExec.vo", 300, cwd=COQ)
+        can_model = rc == 0
 
     def corr():
         cases = corner_cases() + [g_case(ctx.rng) for _ in range(ctx.n(500, 6000))]
-        run_exact(ctx, cases, flow or {"lines": [], "prog": [], "body": "_getBH_level2"}, built and flow is not None,
-                  ctx.tier)
+        run_exact(ctx, cases, flow or {"lines": [], "prog": [], "body": "_getBH_level2"},
+                  can_model and flow is not None, ctx.tier)
         if flow is not None:
             base = [c for c in cases if c["dict"] is None][:200]
             inj = injection_cases(ctx.rng, flow, ctx.n(250, 3000), base)
             inj += all_crash_points(flow, corner_cases()[0])
             inj += all_crash_points(flow, corner_cases()[-1])
-            run_exact(ctx, inj, flow, built, ctx.tier + "_inj")
+            run_exact(ctx, inj, flow, can_model, ctx.tier + "_inj")
     run_guarded(ctx, corr, "C08 correspondence")
 
     big = bool(ctx.broken)
